@@ -10,6 +10,7 @@ from . import model as M
 PROPERTY = "C10"
 LEVEL = "exploration"
 HARNESS = "hgdrive"
+SANITIZE = "asan"      # thorough tier: same batch under -fsanitize=address,undefined
 RULE = ("random mapped functions (stateless, stateful acc/count, key-consuming, self-scheduling delay/ticker with instance-"
         "relative timers, with a broadcast argument) over random key histories of a TSD<Int,TS<Int>> (add, update, remove, "
         "re-add in a later cycle, many keys in one cycle, clear, slot reuse, growth to 60 keys). Each key epoch [added, removed) "
